@@ -42,14 +42,18 @@ pass-through `fwd`):
   final (every schedule, capacity, batch size, `num_steps`, failing inputs / `iterator_fn`, FIFO or any-order pool);
 * `C13_two_stuck_no_unstarted` — under `PoolOK` no task is left unstarted in a quiescent configuration;
 * `C13_two_fifo`, `C13_two_output_exactly_once`, `C13_two_second_level_exactly_once_partial`,
-  `C13_two_first_level_exactly_once_partial` — conservation, the part proved: inside EACH queue nothing is duplicated, dropped or reordered (`produced = dequeued ++ q`); every element
+  `C13_two_input_exactly_once`, `C13_two_first_level_exactly_once_partial` — conservation, the part proved (every link of
+  the chain input iterators → first level → input queue → cache / `lock1` → second level → output queue → caller, as an
+  invariant of every reachable configuration): inside EACH queue nothing is duplicated, dropped or reordered (`produced = dequeued ++ q`); every element
   put into the OUTPUT queue is, exactly once, delivered to the caller / dropped by the caller's final raise or early
   stop / still queued; what the caller holds ++ dropped ++ queued is exactly what the second-level tasks have put, and
   what a task has put is — in order, without repetition — part of `iterator_fn`'s outputs for the values the task pulled
   from the input queue; the input queue's `produced` is exactly what the first-level tasks have put, which is — in
-  order, without repetition — part of the prefix of its input the task has pulled (missing for the full statement: the
-  consumer side of the INPUT queue — the values the second-level tasks pulled vs. `Q1.dequeued` through the shared
-  cache — and equality instead of inclusion in runs without failure / early stop, with empty queues at the end).
+  order, without repetition — part of the prefix of its input the task has pulled; everything taken out of the input
+  queue is, exactly once, pulled by a second-level task / on its way to one (result of the running `get_batch`, in hand)
+  / in the shared cache / dropped by a raising `get_batch`.  Missing for the full statement: the composition of the
+  links into ONE multiset statement about the caller's values, and equality instead of inclusion at the two producer
+  sides in runs without failure / early stop (with both queues, the cache and every hand empty at the end).
 
 NOT proved (full statements, kept visible):
 * conservation across both levels: `theorem C13_two_multiset : Reachable F c0 c → c.allDone → delivered outputs of the
@@ -363,6 +367,27 @@ theorem C13_two_second_level_exactly_once_partial {cap1 cap2 bm1 bm2 mw : Nat} {
   have := hv.bal t ht hr
   rw [List.append_assoc] at this
   exact (List.sublist_append_left _ _).trans this
+
+/-- **exactly-once hand-over from the input queue to the second level** (every schedule, failures, stops): in every
+reachable configuration the values taken out of the INPUT queue are, as a multiset, exactly: the values the second-level
+tasks have pulled ++ the values on their way (the result of the running `Q1.get_batch`, the value in hand inside it, the
+value `DequeueIterator.__next__` returned and `iterator_fn` has not consumed yet) ++ the shared cache of
+`DequeueIterator(Q1)` ++ what a raising `get_batch` dropped.  No input value reaches two tasks, none disappears. -/
+theorem C13_two_input_exactly_once {cap1 cap2 bm1 bm2 mw : Nat} {ns : Option Nat} {fwd ff : Bool}
+    {inputs : List InSpec} {gens : List Nat} {c : Piter2.Cfg}
+    (h : Reachable F (initF cap1 cap2 bm1 bm2 mw ns fwd ff inputs gens) c) :
+    List.Perm (c.s1.dequeued.map (·.2)) ((c.ths.map own).flatten ++ c.cache.map (·.2) ++ c.s1.lost.map (·.2)) := by
+  have hg0 := good_initF cap1 cap2 bm1 bm2 mw ns fwd ff inputs gens
+  refine in1_reachable h hg0 ?_
+  unfold In1Inv
+  have hfl : ((initF cap1 cap2 bm1 bm2 mw ns fwd ff inputs gens).ths.map own).flatten = [] := by
+    rw [List.flatten_eq_nil_iff]
+    intro l hl
+    obtain ⟨t, ht, rfl⟩ := List.mem_map.mp hl
+    simp only [initF, Piter2.init, List.mem_cons, List.mem_append, List.mem_map] at ht
+    rcases ht with rfl | ⟨i, _, rfl⟩ | ⟨g, _, rfl⟩ <;> simp [own, mkCons, mkL1, mkL2]
+  rw [hfl]
+  simp [initF, Piter2.init]
 
 /-- **first level, exactly-once on the producer side** (every schedule, failing inputs and stops included) — a
 `_partial` of conservation across both levels: in every reachable configuration the values in the INPUT queue's
